@@ -404,6 +404,10 @@ pub fn run(cfg: &Cfg) -> (Log, Meta) {
   }
   day_agreement(cfg, &mut log);
   delta_t_continuity(&mut log);
+  // (6) the first day of a month must not depend on which months were built before it on the thread
+  let nh = cfg.tier.pick(30_000usize, 600_000usize);
+  log.merge(crate::util::par_range(nh, 100, |i, l| crate::monitor::month_history::month_history("C05", i, cfg.seed ^ 0x05, 1961, 8000, l)));
+  log.floor("history.answers_judged", cfg.tier.pick(200_000, 4_000_000));
   log.floor("theory.term_instants", 6_000);
   log.floor("theory.lunations", 3_000);
   log.floor("window.grid_points", cfg.tier.pick(30_000, 300_000));
@@ -414,12 +418,14 @@ pub fn run(cfg: &Cfg) -> (Log, Meta) {
   log.floor("deltat.integer_year_joins", 14_000);
   let meta = Meta {
     rule: format!(
-      "(1) all 6,024 term instants and all lunations of 1900-2150 against an independently coded solar/lunar theory (Meeus ch. 25 / 47 truncated, own Delta-T polynomials): longitude at the library's instant within 1200 s of the target, mean bias <= 300 s; independent conjunction on the month's first day unless within 900 s of UT+8 midnight and within 900 s of the library's precise conjunction; (2) sa_lon and m_sa_lon against the same theory on a TT grid over +-3000 years every {} days with tolerances 120 and 170 arcsec (twice the measured, flat envelopes); (3) inverse solvers re-substituted into the library's own series: every {} multiple of 15 deg over +-10,000 years (< 1 arcsec) and every {} conjunction (< 1 arcsec inside AD 0..5000 - outside is a listed finding bounded by 150 arcsec); (4) calendar-making day = civil day of the precise instant for {} terms of 1961-9999 and {} lunations of 1961-8000; (5) TT-UT: left/right limits at every integer year -4000..10000 and steps over a 0.01-year grid <= 5 s, and agreement with the independent polynomials 1900-2150. Non-trivial = theory comparisons, inverse targets, events within 1800 s of midnight, year joins.",
+      "(1) all 6,024 term instants and all lunations of 1900-2150 against an independently coded solar/lunar theory (Meeus ch. 25 / 47 truncated, own Delta-T polynomials): longitude at the library's instant within 1200 s of the target, mean bias <= 300 s; independent conjunction on the month's first day unless within 900 s of UT+8 midnight and within 900 s of the library's precise conjunction; (2) sa_lon and m_sa_lon against the same theory on a TT grid over +-3000 years every {} days with tolerances 120 and 170 arcsec (twice the measured, flat envelopes); (3) inverse solvers re-substituted into the library's own series: every {} multiple of 15 deg over +-10,000 years (< 1 arcsec) and every {} conjunction (< 1 arcsec inside AD 0..5000 - outside is a listed finding bounded by 150 arcsec); (4) calendar-making day = civil day of the precise instant for {} terms of 1961-9999 and {} lunations of 1961-8000; (5) TT-UT: left/right limits at every integer year -4000..10000 and steps over a 0.01-year grid <= 5 s, and agreement with the independent polynomials 1900-2150; (6) {} {} - for the months of 1961-8000, whose enumerated first days (4) has just compared with the precise conjunctions. Non-trivial = theory comparisons, inverse targets, events within 1800 s of midnight, year joins.",
       if cfg.tier == Tier::Thorough { "3.3".to_string() } else { format!("{}", 29 + cfg.seed % 5) },
       if cfg.tier == Tier::Thorough { "" } else { "7th" },
       if cfg.tier == Tier::Thorough { "" } else { "7th" },
       "all 192,936",
-      "all 74,704"
+      "all 74,704",
+      nh,
+      crate::monitor::month_history::RULE_TEXT
     ),
     assumptions: vec![
       "the independent theory is accurate to about 0.01 deg (Sun) and about 10 arcsec plus secular drift (Moon); coefficient changes below that which move no civil day are invisible (DESIGN section 9)".into(),
